@@ -185,4 +185,112 @@ theorem C15_time_string_counterexample :
 theorem C15_printable_order_counterexample :
     fromAttr (tableFor "PrintableString") true [(.standalone, .elem (.range (some 48) (some 90) false))] = none := by decide
 
+-- whole expressions: unions of any number of exactly-rendered operands --------------------------------------
+
+
+theorem flatten_nestFrom (e : AElem) : ∀ (rest : List (Pv.Op × AElem)), flatten (nestFrom e rest) = e :: rest.map (·.2) := by
+  intro rest
+  induction rest generalizing e with
+  | nil => rfl
+  | cons p r ih => obtain ⟨o, e'⟩ := p; simp only [nestFrom, flatten, ih, List.map_cons]
+
+/-- an operand whose own subsets denote exactly the operand (strings: `str_exact`; closed ranges on a
+    surrogate-free interval table: `range_exact`) -/
+def GoodElem (ty : String) (t : Table) (e : AElem) : Prop :=
+  ∃ subs, subsetsOfElem t e = .ok subs ∧ ∀ c, memAttr ty subs c = memElem ty e c
+
+theorem memAttr_append (ty : String) (a b : List Subset) (c : Nat) :
+    memAttr ty (a ++ b) c = (memAttr ty a c || memAttr ty b c) := by
+  simp only [memAttr, List.any_append]
+  cases baseMem ty c <;> simp
+
+theorem memAttr_nil (ty : String) (c : Nat) : memAttr ty [] c = false := by simp [memAttr]
+
+/-- one step of `subsetsOfFrom`'s fold -/
+def flatStep (t : Table) (acc : Res (List Subset)) (e : AElem) : Res (List Subset) :=
+  match acc, subsetsOfElem t e with
+  | .ok a, .ok b => .ok (a ++ b)
+  | .ok a, .none => .ok a
+  | .err, _ => .err
+  | _, .err => .err
+  | .none, x => x
+
+theorem subsetsOfFrom_eq (t : Table) (s : ASet) : subsetsOfFrom t s = (flatten s).foldl (flatStep t) (.ok []) := rfl
+
+/-- the flatten fold over good operands appends their subsets -/
+theorem fold_good (ty : String) (t : Table) : ∀ (es : List AElem) (acc : List Subset), (∀ e ∈ es, GoodElem ty t e) →
+    ∃ subs, es.foldl (flatStep t) (Res.ok acc) = Res.ok subs ∧
+      ∀ c, memAttr ty subs c = (memAttr ty acc c || es.any (fun e => memElem ty e c)) := by
+  intro es
+  induction es with
+  | nil => intro acc _; exact ⟨acc, rfl, fun c => by simp⟩
+  | cons e es ih =>
+    intro acc h
+    obtain ⟨sb, hs, hm⟩ := h e List.mem_cons_self
+    obtain ⟨subs, hf, hmem⟩ := ih (acc ++ sb) (fun x hx => h x (List.mem_cons_of_mem _ hx))
+    refine ⟨subs, ?_, ?_⟩
+    · have : flatStep t (Res.ok acc) e = Res.ok (acc ++ sb) := by simp only [flatStep, hs]
+      rw [List.foldl_cons, this]; exact hf
+    · intro c
+      rw [hmem c, memAttr_append, hm c, List.any_cons, Bool.or_assoc]
+
+/-- the X.680 reading of a chain whose operators are all `|` -/
+theorem memChain_union (ty : String) (c : Nat) : ∀ (first : AElem) (rest : List (Pv.Op × AElem)),
+    (∀ p ∈ rest, p.1 = Pv.Op.union) →
+    memChain ty ⟨first, rest⟩ c = (first :: rest.map (·.2)).any (fun e => memElem ty e c) := by
+  intro first rest
+  simp only [memChain]
+  induction rest generalizing first with
+  | nil => intro _; simp [parseF]
+  | cons p r ih =>
+    intro h
+    obtain ⟨o, e⟩ := p
+    have ho : o = Pv.Op.union := h (o, e) List.mem_cons_self
+    subst ho
+    have := ih e (fun q hq => h q (List.mem_cons_of_mem _ hq))
+    simp only [parseF, List.any_cons, List.all_cons, List.all_nil, Bool.and_true, List.map_cons] at this ⊢
+    rw [this]
+
+/-- C15 (whole expressions), PARTIAL: a FROM constraint that is a union of any number of operands, each of
+    which is rendered exactly on its own, is rendered exactly as a whole — the annotation denotes precisely the
+    characters the X.680 reading of the constraint permits. -/
+theorem C15_union_chain_exact_partial (ty : String) (t : Table) (first : AElem) (rest : List (Pv.Op × AElem))
+    (hu : ∀ p ∈ rest, p.1 = Pv.Op.union) (hg : ∀ e ∈ first :: rest.map (·.2), GoodElem ty t e) :
+    ∃ subs, subsetsOfFrom t (nestFrom first rest) = .ok subs ∧
+      ∀ c, memAttr ty (sortByKey subsetKey subs) c = (baseMem ty c && memChain ty ⟨first, rest⟩ c) := by
+  obtain ⟨subs, hf, hm⟩ := fold_good ty t (first :: rest.map (·.2)) [] hg
+  refine ⟨subs, ?_, ?_⟩
+  · rw [subsetsOfFrom_eq, flatten_nestFrom]; exact hf
+  · intro c
+    rw [C15_sort_keeps_set, hm c, memAttr_nil, Bool.false_or, memChain_union ty c first rest hu]
+    -- every memElem already carries the base-alphabet test
+    cases hb : baseMem ty c
+    · simp only [Bool.false_and]
+      rw [List.any_eq_false]
+      intro e _
+      simp [memElem, hb]
+    · simp
+
+
+
+
+theorem good_of_pointwise (ty : String) (t : Table) (e : AElem)
+    (h : ∀ c, ∃ subs, subsetsOfElem t e = .ok subs ∧ memAttr ty subs c = memElem ty e c) : GoodElem ty t e := by
+  obtain ⟨subs0, h0, _⟩ := h 0
+  refine ⟨subs0, h0, fun c => ?_⟩
+  obtain ⟨subs, h1, h2⟩ := h c
+  rw [h0] at h1
+  cases h1
+  exact h2
+
+/-- strings whose characters are in the table (and that the lexer does not take for a TIME value) are good operands -/
+theorem good_str (ty : String) (t : Table) (s : List Nat) (h : strOk t s = true) : GoodElem ty t (.str s false) :=
+  good_of_pointwise ty t _ (fun c => str_exact ty t s h c)
+
+/-- closed ranges inside a surrogate-free interval table are good operands -/
+theorem good_range (ty : String) (lo hi l h : Nat) (hs : hi < 0xD800) (h1 : lo ≤ l) (h2 : l ≤ h) (h3 : h ≤ hi) :
+    GoodElem ty (.interval lo hi) (.range (some l) (some h) false) :=
+  good_of_pointwise ty _ _ (fun c => range_exact ty lo hi l h hs h1 h2 h3 c)
+
+
 end Props.C15
